@@ -40,8 +40,9 @@ VARIABLES logM, logW,      \* per-process event sequences (bound once in Init)
           swapst,          \* master's swap sub-state: <<>> | <<"drawn", i>> | <<"half", a, b>>
           used,            \* workers already paired in this swap round
           stats,           \* [acc, rej, nontrivial]: exchanges accepted / rejected / accepted with different energies
-          plist            \* pairs proposed in this round that have not had their draw yet
-vars == <<logM, logW, lm, lw, inbox, outbox, chain, wtask, got, swapst, used, stats, plist>>
+          plist,           \* pairs proposed in this round that have not had their draw yet
+          att, suc         \* the master's exchange book-keeping: att[<<a, b>>] = times pair (a, b) was proposed, suc = times it was exchanged
+vars == <<logM, logW, lm, lw, inbox, outbox, chain, wtask, got, swapst, used, stats, plist, att, suc>>
 TraceInit == /\ TLCSet(1, 0)
              /\ logM = SelectSeq(Log, LAMBDA e : e.p = "M")
              /\ logW = [w \in W |-> SelectSeq(Log, LAMBDA e : e.p = ProcName(w))]
@@ -50,6 +51,7 @@ TraceInit == /\ TLCSet(1, 0)
              /\ chain = [w \in W |-> [n |-> 1, pos |-> InitPos[w], tp4 |-> Energy(InitPos[w]) * Beta4[w]]]
              /\ wtask = [w \in W |-> <<>>] /\ got = [w \in W |-> <<>>] /\ swapst = <<>> /\ used = {}
              /\ stats = [acc |-> 0, rej |-> 0, nontrivial |-> 0] /\ plist = <<>>
+             /\ att = [p \in W \X W |-> 0] /\ suc = [p \in W \X W |-> 0]
 EM == logM[lm]
 \* untempered energy reported by worker a in this round (the master divides by the inverse temperature)
 Untemper(a) == got[a][2] \div Beta4[a]
@@ -70,19 +72,21 @@ MSendTask == /\ lm <= Len(logM) /\ EM.ev = "send" /\ EM.task # "update_position"
              /\ used' = {}
              /\ stats' = IF Rejected THEN [stats EXCEPT !.rej = @ + 1] ELSE stats
              /\ inbox' = [inbox EXCEPT ![EM.w] = Append(@, EM)] /\ lm' = lm + 1
-             /\ UNCHANGED <<logM, logW, lw, outbox, chain, wtask, got, plist>>
+             /\ UNCHANGED <<logM, logW, lw, outbox, chain, wtask, got, plist, att, suc>>
 MPairs == /\ lm <= Len(logM) /\ EM.ev = "pairs"
           /\ swapst = <<>> /\ plist = <<>>
           /\ PairsValid(EM.pairs)
           /\ plist' = EM.pairs /\ lm' = lm + 1
-          /\ UNCHANGED <<logM, logW, lw, inbox, outbox, chain, wtask, got, swapst, used, stats>>
+          \* (the pairs of a round are disjoint, so each is counted once)
+          /\ att' = [p \in W \X W |-> att[p] + (IF \E k \in 1..Len(EM.pairs) : <<EM.pairs[k][1], EM.pairs[k][2]>> = p THEN 1 ELSE 0)]
+          /\ UNCHANGED <<logM, logW, lw, inbox, outbox, chain, wtask, got, swapst, used, stats, suc>>
 MDraw == /\ lm <= Len(logM) /\ EM.ev = "draw"
          /\ CloseDraw
          /\ plist # <<>>                                            \* one draw per proposed pair, in order
          /\ stats' = IF Rejected THEN [stats EXCEPT !.rej = @ + 1] ELSE stats
          /\ swapst' = <<"drawn", EM.i, Head(plist)[1], Head(plist)[2]>> /\ plist' = Tail(plist)
          /\ used' = used \cup {Head(plist)[1], Head(plist)[2]} /\ lm' = lm + 1
-         /\ UNCHANGED <<logM, logW, lw, inbox, outbox, chain, wtask, got>>
+         /\ UNCHANGED <<logM, logW, lw, inbox, outbox, chain, wtask, got, att, suc>>
 \* as coded the first update goes to chain i (= the lower index a) and carries chain j's point, the second to j carrying i's
 MUpdate1 == /\ lm <= Len(logM) /\ EM.ev = "send" /\ EM.task = "update_position"
             /\ swapst # <<>> /\ swapst[1] = "drawn"
@@ -92,15 +96,16 @@ MUpdate1 == /\ lm <= Len(logM) /\ EM.ev = "send" /\ EM.task = "update_position"
                     /\ EM.pos = got[b][1] /\ EM.e = Untemper(b)                 \* HandOver: the other's point, untempered energy
                     /\ swapst' = <<"half", a, b>>
             /\ inbox' = [inbox EXCEPT ![EM.w] = Append(@, EM)] /\ lm' = lm + 1
-            /\ UNCHANGED <<logM, logW, lw, outbox, chain, wtask, got, used, stats, plist>>
+            /\ UNCHANGED <<logM, logW, lw, outbox, chain, wtask, got, used, stats, plist, att, suc>>
 MUpdate2 == /\ lm <= Len(logM) /\ EM.ev = "send" /\ EM.task = "update_position"
             /\ swapst # <<>> /\ swapst[1] = "half" /\ EM.w = swapst[3]
             /\ LET a == swapst[2] IN EM.pos = got[a][1] /\ EM.e = Untemper(a)
             /\ swapst' = <<>>
             /\ stats' = [stats EXCEPT !.acc = @ + 1,
                                       !.nontrivial = @ + (IF Untemper(swapst[2]) # Untemper(swapst[3]) THEN 1 ELSE 0)]
+            /\ suc' = [suc EXCEPT ![<<swapst[2], swapst[3]>>] = @ + 1]
             /\ inbox' = [inbox EXCEPT ![EM.w] = Append(@, EM)] /\ lm' = lm + 1
-            /\ UNCHANGED <<logM, logW, lw, outbox, chain, wtask, got, used, plist>>
+            /\ UNCHANGED <<logM, logW, lw, outbox, chain, wtask, got, used, plist, att>>
 MRecv == /\ lm <= Len(logM) /\ EM.ev = "recv" /\ outbox[EM.w] # <<>>
          /\ LET m == Head(outbox[EM.w]) IN
               /\ m.reply = EM.reply
@@ -108,7 +113,17 @@ MRecv == /\ lm <= Len(logM) /\ EM.ev = "recv" /\ outbox[EM.w] # <<>>
               /\ (EM.reply = "chain" => m.n = EM.n)
          /\ got' = IF EM.reply = "position" THEN [got EXCEPT ![EM.w] = <<EM.pos, EM.tp4>>] ELSE got
          /\ outbox' = [outbox EXCEPT ![EM.w] = Tail(@)] /\ lm' = lm + 1
-         /\ UNCHANGED <<logM, logW, lw, inbox, chain, wtask, swapst, used, stats, plist>>
+         /\ UNCHANGED <<logM, logW, lw, inbox, chain, wtask, swapst, used, stats, plist, att, suc>>
+\* the master's exchange statistics (attempted_swaps / successful_swaps, read after a swap or advance call returned): every ordered pair
+\* a # b is reported; only pairs a < b are ever proposed, each counted once per proposal and once per exchange
+MStats == /\ lm <= Len(logM) /\ EM.ev = "swapstats"
+          /\ CloseDraw /\ swapst' = <<>> /\ plist = <<>>
+          /\ stats' = IF Rejected THEN [stats EXCEPT !.rej = @ + 1] ELSE stats
+          /\ \A k \in 1..Len(EM.att) : att[<<EM.att[k][1], EM.att[k][2]>>] = EM.att[k][3]
+          /\ \A k \in 1..Len(EM.suc) : suc[<<EM.suc[k][1], EM.suc[k][2]>>] = EM.suc[k][3]
+          /\ Len(EM.att) = N * (N - 1) /\ Len(EM.suc) = N * (N - 1)
+          /\ lm' = lm + 1
+          /\ UNCHANGED <<logM, logW, lw, inbox, outbox, chain, wtask, got, used, plist, att, suc>>
 \* ---- worker events ----
 EW(w) == logW[w][lw[w]]
 WRecv(w) == /\ lw[w] <= Len(logW[w]) /\ EW(w).ev = "recv" /\ inbox[w] # <<>> /\ wtask[w] = <<>>
@@ -123,20 +138,20 @@ WRecv(w) == /\ lw[w] <= Len(logW[w]) /\ EW(w).ev = "recv" /\ inbox[w] # <<>> /\ 
                                                      [] m.task = "update_position" -> <<>>
                                                      [] OTHER -> <<m.task>>]
             /\ inbox' = [inbox EXCEPT ![w] = Tail(@)] /\ lw' = [lw EXCEPT ![w] = @ + 1]
-            /\ UNCHANGED <<logM, logW, lm, outbox, got, swapst, used, stats, plist>>
+            /\ UNCHANGED <<logM, logW, lm, outbox, got, swapst, used, stats, plist, att, suc>>
 WStep(w) == /\ lw[w] <= Len(logW[w]) /\ EW(w).ev = "step" /\ wtask[w] # <<>> /\ wtask[w][1] = "advance" /\ wtask[w][2] > 0
             /\ EW(w).n = chain[w].n + 1
             /\ chain' = [chain EXCEPT ![w] = [n |-> EW(w).n, pos |-> EW(w).pos, tp4 |-> EW(w).tp4]]
             /\ wtask' = [wtask EXCEPT ![w] = <<"advance", @[2] - 1>>] /\ lw' = [lw EXCEPT ![w] = @ + 1]
-            /\ UNCHANGED <<logM, logW, lm, inbox, outbox, got, swapst, used, stats, plist>>
+            /\ UNCHANGED <<logM, logW, lm, inbox, outbox, got, swapst, used, stats, plist, att, suc>>
 WSend(w) == /\ lw[w] <= Len(logW[w]) /\ EW(w).ev = "send" /\ wtask[w] # <<>>
             /\ \/ wtask[w] = <<"advance", 0>> /\ EW(w).reply = "advance_complete"
                \/ wtask[w] = <<"send_position">> /\ EW(w).reply = "position" /\ EW(w).pos = chain[w].pos /\ EW(w).tp4 = chain[w].tp4
                \/ wtask[w] = <<"send_chain">> /\ EW(w).reply = "chain" /\ EW(w).n = chain[w].n
             /\ outbox' = [outbox EXCEPT ![w] = Append(@, EW(w))] /\ wtask' = [wtask EXCEPT ![w] = <<>>]
             /\ lw' = [lw EXCEPT ![w] = @ + 1]
-            /\ UNCHANGED <<logM, logW, lm, inbox, chain, got, swapst, used, stats, plist>>
-MAct == MSendTask \/ MPairs \/ MDraw \/ MUpdate1 \/ MUpdate2 \/ MRecv
+            /\ UNCHANGED <<logM, logW, lm, inbox, chain, got, swapst, used, stats, plist, att, suc>>
+MAct == MSendTask \/ MPairs \/ MDraw \/ MUpdate1 \/ MUpdate2 \/ MRecv \/ MStats
 WAct(w) == WRecv(w) \/ WStep(w) \/ WSend(w)
 TraceNextFull == MAct \/ \E w \in W : WAct(w)             \* every interleaving of the per-process logs
 \* Partial-order reduction.  A worker's event is determined by its own log, touches only its own chain, task, cursor and the tail /
@@ -148,6 +163,8 @@ TraceNext == \/ \E w \in W : WAct(w) /\ \A v \in 1..(w - 1) : ~ENABLED WAct(v)
              \/ MAct /\ \A v \in W : ~ENABLED WAct(v)
 TraceSpec == TraceInit /\ [][TraceNext]_vars
 TraceSpecFull == TraceInit /\ [][TraceNextFull]_vars
+\* book-keeping: never more exchanges than proposals, nothing ever recorded for a pair with a >= b
+StatsSane == \A p \in W \X W : suc[p] <= att[p] /\ (p[1] >= p[2] => att[p] = 0)
 \* C03 under exchanges: at every moment each chain's stored value belongs to its current point
 ProbsBelong == \A w \in W : chain[w].tp4 = Energy(chain[w].pos) * Beta4[w]
 RECURSIVE SumLw(_)
